@@ -379,8 +379,9 @@ struct LSingle {
 fn build_single(tier: &str) -> LSingle {
     let mut cases = Vec::new();
     for role in [Role::Outstation, Role::Master] {
-        let dsts = [role.own(), 77, 0xFFFC, 0xFFFD, 0xFFFE, 0xFFFF, 0xFFF0];
-        let srcs = [role.peer(), 33, role.own(), 0xFFF5, 0xFFFF, 0xFFFC];
+        let dsts = [role.own(), 77, 0xFFFC, 0xFFFD, 0xFFFE, 0xFFFF, 0xFFF0, 0xFFEF, 0xFFFB];
+        // class boundaries included: 0xFFEF is the last ordinary address, 0xFFF0..=0xFFFB are reserved
+        let srcs = [role.peer(), 33, role.own(), 0xFFF5, 0xFFFF, 0xFFFC, 0xFFEF, 0xFFF0, 0xFFFB];
         for self_addr in [false, true] {
             if role == Role::Master && self_addr {
                 continue;
